@@ -266,9 +266,19 @@ def c01(run, scratch):
     run.assumptions += COMMON_ASSUME
 
 
+def mc_builder(run, scratch, cfg, note):
+    r = run_tlc(scratch, "MC_Builder", cfg=f"MC_Builder_{cfg}.cfg", workers=12, timeout=3000)
+    if r.violation:
+        run.violation("MC_Builder", {"signature": {"step": "MC_Builder_" + cfg}, "tlc": r.violation, "output": r.out[-5000:]})
+    run.add_tlc("MC_Builder_" + cfg, r, note=note)
+
+
 @prop("C03")
 def c03(run, scratch):
     t = run.tier == "thorough"
+    expect_counterexample(run, scratch, "MC_Builder", "MC_Builder_pinned_offsets.cfg", "by-params offsets counted in members")
+    mc_builder(run, scratch, "cache_thorough" if t else "cache_quick",
+               "builder step machine (inline lookahead, per-class dedup set, offsets) = declarative index, all record sequences within bound")
     retrace_mc(run, scratch, "blocks_thorough" if t else "blocks_quick", "params", workers=14 if t else 10)
     retrace_mc(run, scratch, "records_thorough" if t else "records_quick", "params", workers=14 if t else 10)
     retrace_trace(run, scratch, "Trace_Retrace_params", "params", 200 if t else 40, 300 if t else 120, SMALL_CORPUS,
@@ -293,6 +303,9 @@ def c04(run, scratch):
 @prop("C02")
 def c02(run, scratch):
     t = run.tier == "thorough"
+    expect_counterexample(run, scratch, "MC_Builder", "MC_Builder_pinned_header.cfg", "the ignored valueless sourceFile header")
+    mc_builder(run, scratch, "mapper", "mapper variant (no parameter index) of the builder machine = declarative index")
+    mc_builder(run, scratch, "cache" if t else "cache_quick", "cache-writer variant of the builder machine = declarative index")
     for cfg in (["blocks_thorough", "files_thorough", "records_thorough", "names_quick", "entries_quick"] if t else
                 ["blocks_quick", "files_quick", "names_quick"]):
         retrace_mc(run, scratch, cfg, "all", workers=14 if t else 10)
